@@ -28,6 +28,9 @@ class Monitor:
     def __init__(self):
         self.recording = False
         self.events = []
+        # when set, process creation inside a watched section is recorded AND refused (an
+        # interactive child such as a pager would otherwise wait for input for ever)
+        self.deny_spawn = False
 
     @classmethod
     def get(cls):
@@ -63,6 +66,9 @@ class Monitor:
             except Exception:  # noqa: BLE001
                 rec = (event,)
             self.events.append(rec)
+            if self.deny_spawn and event.startswith(("os.system", "os.exec", "os.posix_spawn", "os.fork", "os.forkpty",
+                                                     "os.spawn", "subprocess.Popen")):
+                raise PermissionError("process creation is refused inside this monitored section")
 
     @contextlib.contextmanager
     def watch(self):
